@@ -36,7 +36,7 @@ AP_SUPPORTED = [(1, 1), (2, 1), (1, 4), (1, 128)]
 
 
 def counts(tier: str):
-    return (250, 75.0) if tier == 'quick' else (15000, 900.0)
+    return (1000, 75.0) if tier == 'quick' else (15000, 900.0)
 
 
 def generate(rng, tier: str, index: int) -> dict:
